@@ -12,6 +12,9 @@ def matrix(q):
             k = min(keys, 8) if vec == "fixed8" else keys
             el = {"amcvector": "TC4", "smallvector2": "TR", "fixed8": "NTR", "stdvector": "TC4"}[vec]
             m.append(e2.inst("flatset", el, cmp, vec, keys=k, opts=["--hint-only"]))
+    # a FULL underlying vector: a hinted insertion of a present value is still a no-op, of an absent one a clean refusal
+    m.append(e2.inst("flatset", "TC4", "less", "fixed3", keys=4, opts=["--hint-only"]))
+    m.append(e2.inst("flatset", "NTR", "coarse", "fixed3", keys=5, opts=["--hint-only"]))
     # a comparator with state: every decision of the hinted paths must go through the stored object
     m.append(e2.inst("flatset", "TC4", "stateful", "amcvector", keys=keys, opts=["--hint-only"]))
     m.append(e2.inst("flatset", "TR", "stateful", "smallvector2", keys=min(keys, 7), opts=["--hint-only"]))
